@@ -4,19 +4,25 @@ the leader's reply unchanged, or refuses; it never decides itself; its holds cha
   (1) TLC, exhaustive: spec/Forward.tla (transparency layer of a non-leader node: wrapped connections, upstream links,
       requests in flight, AGAIN re-dispatch on role changes, upstream breaks, leader unreachable) - invariants
       OneReplyRightConn, RelayedIsLeaderReply, NoFabricatedSuccess, RefusedNotExecuted, AnsweredUnlessOrphan and the action
-      property NonLeaderEngineUntouched, with the code's deviations named as constants
+      property NonLeaderEngineUntouched, with the code's deviations named as constants; hold expiry on the deciding engine
+      (LeaderExpire: an unsolicited EXPRIED frame with an already answered request id on the upstream link) with
+      ReplyOfThatVeryRequest, NoticeIsOfExpiredGrant, NoticesRelayedToBinary, LockWaiterEmpty; the mutation "lockRequestId is
+      not reset after the relay" (ResetAfterRelay = FALSE) is refuted by TLC
   (2) TLC -simulate on the same module generates behaviours (sends per connection, breaks, leader gone / back, promotion)
       that are replayed, with seeded and directed histories, on real slock PROCESSES (engine P: leader, followers behind a
       recording proxy, a CONFIG-state member); every request / reply / upstream frame / snapshot is recorded
   (3) TLC validates every recorded trace against spec/mon/MonForward.tla
-  (4) binding self-test: a relayed refusal of an accepted trace is rewritten to SUCCED; MonForward must reject it."""
+  (4) binding self-test: a relayed refusal of an accepted trace is rewritten to SUCCED; MonForward must reject it; the answer
+      a text client got for a request AFTER an expiry is replaced by the leader's notice frame: MonForward must say
+      reply-of-another-request."""
 import json, os, threading, time, itertools
 import vtlc, engine, gen_fwd
 import replcluster as rc
 import fwdcluster as fc
 from vbuild import VERIF, InfraError
 
-INVS = "TypeOK OneReplyRightConn RelayedIsLeaderReply NoFabricatedSuccess RefusedNotExecuted AnsweredUnlessOrphan OrphansOnlyByDeviation OrphansAreBinary FastPathAgreesWithLeader"
+INVS = ("TypeOK OneReplyRightConn RelayedIsLeaderReply NoFabricatedSuccess RefusedNotExecuted AnsweredUnlessOrphan OrphansOnlyByDeviation OrphansAreBinary "
+        "FastPathAgreesWithLeader ReplyOfThatVeryRequest NoticeIsOfExpiredGrant NoticesRelayedToBinary LockWaiterEmpty")
 ALLOPS = '"lock0", "lockw", "lockr", "lockc", "lockcw", "unlock"'
 
 MC = '''SPECIFICATION Spec
@@ -28,9 +34,11 @@ CONSTANTS
   Ops = {%(ops)s}
   MaxReq = %(maxreq)d
   MaxFaults = %(faults)d
+  MaxExpire = %(expire)d
   RollbackLatestOnly = %(rlo)s
   FirstTextLocal = %(ftl)s
   FastPathOr = %(fpor)s
+  ResetAfterRelay = %(reset)s
   AllowDemote = %(demote)s
   RecordHist = %(hist)s
 INVARIANTS %(invs)s
@@ -39,7 +47,7 @@ CHECK_DEADLOCK FALSE
 '''
 
 def mc_cfg(**kw):
-    d = dict(bin='"b1"', text='"t1"', dir='"d1"', lids="1, 2", ops='"lock0", "lockw", "unlock"', maxreq=3, faults=1, rlo="TRUE", ftl="TRUE", fpor="FALSE",
+    d = dict(bin='"b1"', text='"t1"', dir='"d1"', lids="1, 2", ops='"lock0", "lockw", "unlock"', maxreq=3, faults=1, expire=0, rlo="TRUE", ftl="TRUE", fpor="FALSE", reset="TRUE",
              demote="FALSE", hist="FALSE", invs=INVS, props="PROPERTY NonLeaderEngineUntouched")
     d.update(kw)
     return MC % d
@@ -52,13 +60,18 @@ def exhaustive(tier, wd, res):
             # (about 0.6 million states in all: the quick tier shares the machine with the cluster run; two faults, the repaired
             #  deviations and the 3 M / 10 M state configurations are in the thorough tier)
             runs = [("three-requests", mc_cfg(ops='"lockw", "unlock"', dir="")),
-                    ("all-ops-one-fault-demote", mc_cfg(ops=ALLOPS, maxreq=2, faults=1, demote="TRUE"))]
+                    ("all-ops-one-fault-demote", mc_cfg(ops=ALLOPS, maxreq=2, faults=1, demote="TRUE")),
+                    ("three-requests-one-expiry", mc_cfg(ops='"lockr", "lockw", "unlock"', dir="", faults=0, expire=1))]
         else:
             runs = [("three-requests", mc_cfg()),
                     ("all-ops-two-faults-demote", mc_cfg(ops=ALLOPS, maxreq=2, faults=2, demote="TRUE")),
                     ("deviations-repaired", mc_cfg(ops=ALLOPS, maxreq=2, faults=2, demote="TRUE", rlo="FALSE", ftl="FALSE", invs=INVS + " NoOrphan")),
                     ("three-requests-two-faults", mc_cfg(faults=2, demote="TRUE")),
-                    ("two-binary-connections", mc_cfg(bin='"b1", "b2"', text="", maxreq=3, faults=2))]
+                    ("two-binary-connections", mc_cfg(bin='"b1", "b2"', text="", maxreq=3, faults=2)),
+                    ("three-requests-one-expiry", mc_cfg(ops='"lockr", "lockw", "unlock"', dir="", faults=0, expire=1)),
+                    ("three-requests-two-expiries", mc_cfg(dir="", faults=0, expire=2)),
+                    ("all-ops-one-fault-one-expiry-demote", mc_cfg(ops=ALLOPS, maxreq=2, faults=1, expire=1, demote="TRUE")),
+                    ("three-requests-one-fault-one-expiry", mc_cfg(dir="", faults=1, expire=1))]
         out = []
         for name, cfg in runs:
             r = vtlc.run_tlc(os.path.join(VERIF, "spec"), "Forward", cfg, os.path.join(wd, "mc_" + name), workers=max(2, engine.NCPU - 2),
@@ -75,11 +88,17 @@ def exhaustive(tier, wd, res):
         r = vtlc.run_tlc(os.path.join(VERIF, "spec"), "Forward", mc_cfg(ops='"lockr", "unlock"', maxreq=2, faults=0, fpor="TRUE", invs="FastPathAgreesWithLeader", props=""),
                          os.path.join(wd, "mc_fastpath_or"), workers=2, timeout=300, heap="1g")
         res["fastpath_or_counterexample"] = "Invariant FastPathAgreesWithLeader is violated" in r["out"]
+        # lockRequestId not reset after a frame was handed to lockWaiter (seed C10d): the expiry notice is taken as the answer of
+        # the next request of the text connection
+        r = vtlc.run_tlc(os.path.join(VERIF, "spec"), "Forward", mc_cfg(ops='"lock0", "unlock"', bin="", dir="", maxreq=2, faults=0, expire=1, reset="FALSE",
+                                                                       invs="ReplyOfThatVeryRequest", props=""),
+                         os.path.join(wd, "mc_noreset"), workers=2, timeout=300, heap="1g")
+        res["noreset_counterexample"] = "Invariant ReplyOfThatVeryRequest is violated" in r["out"]
         res["runs"] = out
     except Exception as ex:
         res["error"] = ex
 
-SIM = dict(bin='"b1", "b2"', text='"t1", "t2"', dir='"d1"', lids="1, 2, 3", ops=ALLOPS, faults=2, hist="TRUE",
+SIM = dict(bin='"b1", "b2"', text='"t1", "t2"', dir='"d1"', lids="1, 2, 3", ops=ALLOPS, faults=2, expire=0, hist="TRUE",
            invs="Export OneReplyRightConn RelayedIsLeaderReply NoFabricatedSuccess", props="")
 
 def behaviours(seed, n, wd):
@@ -154,6 +173,49 @@ def behaviours(seed, n, wd):
     nf = min(len(top), (n * 2) // 3)
     return top[:nf] + plain[: n - nf], prom, len(got)
 
+def expiry_behaviours(seed, n, wd, res):
+    """TLC-generated EXPIRY behaviours: random walks of spec/ForwardSim.tla (the class of the next step is drawn first), printed
+    when a hold whose command came in on a connection of the non-leader expired and that connection sent again."""
+    try:
+        with open(os.path.join(VERIF, "spec", "sim", "ForwardExpiry_sim.cfg")) as fh:
+            cfg = fh.read()
+        r = vtlc.run_tlc(os.path.join(VERIF, "spec"), "ForwardSim", cfg, wd, workers=1, timeout=300, heap="1g",
+                         simulate=f"num={max(250, n * 12)}", depth=80, seed=seed * 11 + 3)
+        if r["rc"] == -9:
+            raise InfraError("expiry behaviour generation (tlc -simulate on ForwardSim.tla) timed out")
+        got, seen = [], set()
+        for line in r["out"].splitlines():
+            line = line.strip()
+            if line.startswith('"BEHAVIOUR '):
+                try:
+                    h = json.loads(json.loads(line)[10:])
+                except Exception:
+                    continue
+                while h and h[-1]["op"] != "send":
+                    h = h[:-1]
+                key = json.dumps(h, sort_keys=True)
+                if key not in seen:
+                    seen.add(key)
+                    got.append(h)
+        if not got:
+            raise InfraError("tlc -simulate on ForwardSim.tla produced no expiry behaviour:\n" + r["out"][-2500:])
+        def first_exp(h):
+            return [x for x in h if x["op"] == "expire" and x["n"] > 0 and x["c"][:1] in "bt"][0]
+        def rank(h):
+            x = first_exp(h)
+            i = h.index(x)
+            after_same = sum(1 for y in h[i + 1:] if y["op"] == "send" and y["c"] == x["c"])
+            nofault = not any(y["op"] in ("break", "gone") for y in h[:i + 1])
+            return (-int(nofault), -min(after_same, 3), -sum(1 for y in h if y["op"] == "expire"), json.dumps(h, sort_keys=True))
+        got.sort(key=rank)
+        # text and binary holders alternate
+        et = [h for h in got if first_exp(h)["c"][:1] == "t"]
+        eb = [h for h in got if first_exp(h)["c"][:1] == "b"]
+        mixed = [x for pair in zip(et, eb) for x in pair] + et[len(eb):] + eb[len(et):]
+        res["behs"], res["raw"], res["wall_s"] = mixed[:n], len(got), round(r["wall"], 1)
+    except Exception as ex:
+        res["error"] = ex
+
 # ------------------------------------------------------------------------------------------- trace normalisation
 
 TS_BASE = 1700000000
@@ -171,6 +233,17 @@ class IdMap:
 
 def payload(hexdata):
     return hexdata[4:] if hexdata else ""
+
+def same_terms(e, x):
+    """Is the forwarded frame x (seen by the proxy) the frame of text request e?  Two text connections of one node may send
+    requests with one key and LockId at the same time: the flag, the times and the counts tell them apart."""
+    if "to" not in x:
+        return True
+    if e["cmd"] == "L":
+        return (x["flag"] & 0xdf) == (e["flag"] & 0xdf) and (x["to"], x["tf"], x["ex"], x["ef"], x["cnt"], x["rc"]) == (e["to"], e["tf"], e["ex"], e["ef"], e["cnt"], e["rc"])
+    if e["cmd"] == "U":
+        return (x["flag"] & 0xdf) == (e["flag"] & 0xdf) and x["rc"] == e["rc"]
+    return True
 
 def normalise(events, ids, vkeys):
     """Cut after `end`, make every id an int, link each request to the upstream request that carried it, give every
@@ -193,11 +266,22 @@ def normalise(events, ids, vkeys):
                     h["exp"] = max(0, h.get("exp", 0) - TS_BASE)
     # link
     used = set()
+    replied_at = {}
     for i, e in enumerate(out):
         if e["e"] != "req":
             continue
         e["uprid"] = 0
         e.setdefault("len", 0)
+        # expiry of the request in whole seconds (lower / upper bound): the unit is in the expiry flag
+        ex, ef = e.get("ex", 0), e.get("ef", 0)
+        if ef & 0x4000:
+            e["exlo"] = e["exhi"] = 1000000000 if ex else 0
+        elif ef & 0x0400:
+            e["exlo"], e["exhi"] = ex // 1000, (ex + 999) // 1000
+        elif ef & 0x0040:
+            e["exlo"] = e["exhi"] = ex * 60
+        else:
+            e["exlo"] = e["exhi"] = ex
         if e["cmd"] == "G":
             continue
         ct = 1 if e["cmd"] in ("L", "S") else 2
@@ -205,12 +289,27 @@ def normalise(events, ids, vkeys):
         for j in range(i + 1, len(out)):
             x = out[j]
             if x["e"] == "reply" and x["rid"] == e["id"]:
+                replied_at[e["id"]] = j
                 break
             if x["e"] == "up_req" and x["node"] == e["node"] and j not in used:
                 if e["proto"] == "bin":
                     if x["rid"] == e["id"]:
                         e["uprid"] = x["rid"]; used.add(j); break
-                elif x.get("ct") == ct and x.get("key") == e["key"] and (lid == 0 or x.get("lid") == lid) and x["rid"] >= fc.TEXT_RID_BASE:
+                elif x.get("ct") == ct and x.get("key") == e["key"] and (lid == 0 or x.get("lid") == lid) and x["rid"] >= fc.TEXT_RID_BASE and same_terms(e, x):
+                    e["uprid"] = x["rid"]; used.add(j); break
+    # a text request whose forwarded frame was seen by the proxy only AFTER the client had its answer (the answer did not wait
+    # for the leader: the monitor will have to say why): the frame is still this request's when no other request was issued
+    # in between
+    for i, e in enumerate(out):
+        if e["e"] == "req" and e["proto"] == "text" and e["uprid"] == 0 and e["cmd"] != "G" and e["id"] in replied_at:
+            ct = 1 if e["cmd"] in ("L", "S") else 2
+            lid = e["lid"] if e["cmd"] in ("L", "U") else e["key"]
+            for j in range(replied_at[e["id"]] + 1, len(out)):
+                x = out[j]
+                if x["e"] in ("req", "end"):
+                    break
+                if x["e"] == "up_req" and x["node"] == e["node"] and j not in used and x.get("ct") == ct and x.get("key") == e["key"] \
+                   and (lid == 0 or x.get("lid") == lid) and x["rid"] >= fc.TEXT_RID_BASE and same_terms(e, x):
                     e["uprid"] = x["rid"]; used.add(j); break
     for e in out:
         if e["e"] == "reply":
@@ -247,6 +346,55 @@ def corrupt(events):
             if q["role"] == "follower" and q["uprid"] in ups and ups[q["uprid"]]["res"] == e["res"] and q["cmd"] == "L":
                 e["res"] = 0
                 return evs, f"event {i + 1}: the {('TIMEOUT', 'LOCKED_ERROR')[e['res'] == 5]} reply relayed by follower {q['node']} for request {q['id']} ({q['proto']}) rewritten to SUCCED"
+    return None
+
+def _notices(evs):
+    """(index, up_reply event) of every FURTHER frame the leader sent with a request id it had already answered."""
+    seen, out = set(), []
+    for i, e in enumerate(evs):
+        if e["e"] == "up_reply":
+            if e["rid"] in seen:
+                out.append((i, e))
+            seen.add(e["rid"])
+    return out
+
+def corrupt_text_notice(events):
+    """The answer a TEXT client got through a follower for a request AFTER the expiry of an earlier hold of that connection is
+    replaced by the leader's expiry notice (all fields of that frame): the monitor must say reply-of-another-request."""
+    evs = [dict(e) for e in events]
+    for i, n in _notices(evs):
+        if n["res"] != 9:
+            continue
+        owner = [e for e in evs if e["e"] == "req" and e["uprid"] == n["rid"] and e["proto"] == "text" and e["role"] == "follower"]
+        if not owner:
+            continue
+        for q in evs[i:]:
+            if q["e"] == "req" and q["conn"] == owner[0]["conn"] and q["node"] == owner[0]["node"] and q["cmd"] in ("L", "U") and q["uprid"] != 0:
+                for j, r in enumerate(evs):
+                    if r["e"] == "reply" and r["rid"] == q["id"] and j > i:
+                        for f in ("res", "lid", "lc", "cnt", "lrc", "rc", "datap"):
+                            r[f] = n[f]
+                        r["data"] = n["datap"]
+                        return evs, (f"event {j + 1}: the answer of text request {q['id']} (connection {q['conn']} of follower {q['node']}) replaced by the leader's "
+                                     f"EXPRIED notice for request {owner[0]['id']} of that connection"), "reply-of-another-request"
+    return None
+
+def corrupt_binary_notice(events):
+    """The expiry notice a BINARY client got through a follower is removed from the trace: the monitor must say notice-not-relayed."""
+    evs = [dict(e) for e in events]
+    if any(e["e"] in ("cut", "up_closed", "gone", "role", "closed") for e in evs):
+        return None
+    for i, n in _notices(evs):
+        if n["res"] != 9:
+            continue
+        owner = [e for e in evs if e["e"] == "req" and e["uprid"] == n["rid"] and e["proto"] == "bin" and e["role"] == "follower"]
+        if not owner:
+            continue
+        hits = [j for j, r in enumerate(evs) if r["e"] == "reply" and r["rid"] == owner[0]["id"] and r["res"] == 9 and j > i]
+        if hits:
+            del evs[hits[0]]
+            return evs, (f"event {hits[0] + 1}: the EXPRIED notice follower {owner[0]['node']} relayed to binary connection {owner[0]['conn']} "
+                         f"for request {owner[0]['id']} removed"), "notice-not-relayed"
     return None
 
 # ------------------------------------------------------------------------------------------- monitor run
@@ -297,13 +445,24 @@ def run_part(out, tier, seed, wd):
     os.makedirs(wd, exist_ok=True)
     nbeh = 50 if quick else 600
     nrnd = 70 if quick else 900
+    nxbeh = 8 if quick else 120        # expiry histories (real time: each costs 0.3 - 3 s; they run on followers of their own)
+    nxrnd = 16 if quick else 300
     laps = {}
     # (1) exhaustive design check, beside everything else
     mcres = {}
     th = threading.Thread(target=exhaustive, args=(tier, os.path.join(wd, "mc"), mcres))
     th.start()
     # (2a) behaviours from the model
+    xres = {}
+    thx = threading.Thread(target=expiry_behaviours, args=(seed, nxbeh, os.path.join(wd, "simx"), xres))
+    thx.start()
     behs, prom_behs, nraw = behaviours(seed, nbeh, os.path.join(wd, "sim"))
+    thx.join()
+    if "error" in xres:
+        raise xres["error"] if isinstance(xres["error"], InfraError) else InfraError("expiry behaviour generation failed: %r" % (xres["error"],))
+    exp_behs = xres["behs"]
+    if len(exp_behs) < min(4, nxbeh):
+        raise InfraError(f"expiry behaviour generation produced only {len(exp_behs)} behaviours")
     if len(behs) < min(20, nbeh):
         raise InfraError(f"behaviour generation produced only {len(behs)} behaviours")
     laps["simulate_s"] = round(time.time() - t_start, 1)
@@ -311,7 +470,8 @@ def run_part(out, tier, seed, wd):
     try:
         binp = rc.build_server(wd)
         nprom = 2 + min(len(prom_behs), 2 if quick else 8)
-        cluster = fc.FwdCluster(binp, os.path.join(wd, "cluster"), nf=2, nspare=nprom)
+        NX = 3 if quick else 6             # followers that run the expiry histories (real time: their wall time is the sum of the waits)
+        cluster = fc.FwdCluster(binp, os.path.join(wd, "cluster"), nf=2 + NX, nspare=nprom)
         os.makedirs(os.path.join(wd, "cluster"), exist_ok=True)
         laps["cluster_start_s"] = round(cluster.start(), 2)
         cnt = itertools.count(1)
@@ -336,6 +496,18 @@ def run_part(out, tier, seed, wd):
         for h in prom_behs[: nprom - 2]:
             proms.append(gen_fwd.from_behaviour(seed, idx, h, kb())); idx += 1
         kill = gen_fwd.kill_seq(seed, idx, kb()); idx += 1
+        # expiry histories: key ranges of their own (64 keys each)
+        xseqs, xi = [], 0
+        def xkb():
+            return 500000 + xi * 64
+        xdir = gen_fwd.directed_expiry(seed, idx, xkb(), 64)
+        xi += len(xdir); idx += len(xdir)
+        for h in exp_behs:
+            xseqs.append(gen_fwd.from_behaviour(seed, idx, h, xkb())); idx += 1; xi += 1
+        for i in range(nxrnd):
+            xseqs.append(gen_fwd.gen_expiry(seed, idx, xkb())); idx += 1; xi += 1
+        # (directed ones spread over the expiry workers, first)
+        xseqs = xdir + xseqs
         traces = {}        # worker -> list of (sequence, normalised events)
         errors = []
         ids = IdMap()
@@ -377,6 +549,8 @@ def run_part(out, tier, seed, wd):
         ws = [threading.Thread(target=work, args=("F1", lambda k: "F1", seqs[0::2])),
               threading.Thread(target=work, args=("F2", lambda k: "F2", seqs[1::2])),
               threading.Thread(target=work, args=("S", lambda k: "S%d" % (k + 1), proms))]
+        for j in range(NX):
+            ws.append(threading.Thread(target=work, args=("X%d" % (j + 1), (lambda k, j=j: "F%d" % (3 + j)), xseqs[j::NX])))
         for w in ws:
             w.start()
         for w in ws:
@@ -388,7 +562,7 @@ def run_part(out, tier, seed, wd):
         work_replset()
         if errors:
             raise errors[0] if isinstance(errors[0], InfraError) else InfraError("forwarding engine failed: %r" % (errors[0],))
-        work("X", lambda k: "F2" if k == 0 and frozen else "F1", frozen + [kill])
+        work("Z", lambda k: "F2" if k == 0 and frozen else "F1", frozen + [kill])
         if errors:
             raise errors[0] if isinstance(errors[0], InfraError) else InfraError("forwarding engine failed: %r" % (errors[0],))
         laps["run_s"] = round(time.time() - t_run, 1)
@@ -435,6 +609,33 @@ def run_part(out, tier, seed, wd):
             break
     if stest["rejected"] is not True:
         raise InfraError("forwarding self-test failed: " + ("no relayed refusal found to corrupt" if stest["corruption"] is None else "corrupted trace accepted"))
+    # the clauses about unsolicited frames: two corruptions of accepted expiry histories
+    clean = {n for n in allseq if not any(v.get("name") == n for v in viols)}
+    stest["unsolicited_frames"] = []
+    for fn in (corrupt_text_notice, corrupt_binary_notice):
+        done = False
+        for name in sorted(clean):
+            sc, evs = allseq[name]
+            if sc.get("kind") != "exp":
+                continue
+            c = fn(evs)
+            if c:
+                pth = os.path.join(wd, "selftest_%s.ndjson" % fn.__name__)
+                with open(pth, "w") as fh:
+                    for e in c[0]:
+                        fh.write(json.dumps(e) + "\n")
+                v2, _, _ = fstats([pth], ["C10"], os.path.join(wd, "selftest_" + fn.__name__))
+                codes = sorted({v["code"] for v in v2})
+                stest["unsolicited_frames"].append({"corruption": f"{name}: " + c[1], "expected": c[2], "rejected": c[2] in codes, "codes": codes})
+                if c[2] not in codes:
+                    raise InfraError(f"forwarding self-test failed: {c[1]} - the monitor said {codes}, not {c[2]}")
+                done = True
+                break
+        if not done:
+            # (every candidate history is among the rejected ones: the verdict stands, the demonstration has nothing to start from)
+            if nviol == 0:
+                raise InfraError("forwarding self-test failed: no accepted expiry history to corrupt with " + fn.__name__)
+            stest["unsolicited_frames"].append({"corruption": None, "expected": None, "rejected": None, "skipped": "no accepted expiry history left to corrupt (" + fn.__name__ + ")"})
     th.join()
     if "error" in mcres:
         ex = mcres["error"]
@@ -443,12 +644,50 @@ def run_part(out, tier, seed, wd):
     st = {"requests": 0, "via_leader": 0, "via_follower": 0, "via_config_member": 0, "via_promoted_node": 0, "via_replset_member": 0, "replset_after_step_down": 0, "binary": 0, "text": 0, "relayed": 0,
           "local_refusals": 0, "local_fastpath_timeouts": 0, "local_error_after_break": 0, "first_short_text_handled_locally": 0,
           "unanswered": 0, "snapshots_compared": 0, "follower_snapshot_keys": 0, "value_reads_compared": 0, "upstream_cuts": 0, "leader_gone_windows": 0,
-          "promotions": 0, "text_other_cmds": 0}
+          "promotions": 0, "text_other_cmds": 0,
+          # unsolicited frames (hold expiry on the leader)
+          "expiry_histories": 0, "expiry_histories_from_model_behaviours": 0, "requests_with_short_expiry_seconds": 0, "requests_with_short_expiry_milliseconds": 0,
+          "value_commands_with_expiry": 0, "expiry_notices_on_upstream_links": 0, "notices_for_text_connections": 0, "notices_for_binary_connections": 0,
+          "notices_relayed_to_binary_clients": 0, "notices_to_binary_clients_of_the_leader": 0,
+          "text_requests_relayed_after_a_notice_on_their_connection": 0, "binary_requests_relayed_after_a_notice_on_their_connection": 0,
+          "notice_waits": 0, "notice_waits_satisfied": 0}
     for name, (sc, evs) in allseq.items():
         reqs = {e["id"]: e for e in evs if e["e"] == "req"}
         upr = {e["rid"] for e in evs if e["e"] == "up_reply"}
+        if sc.get("kind") == "exp":
+            st["expiry_histories"] += 1
+            st["expiry_histories_from_model_behaviours"] += sc.get("src") == "tlc"
+        byup = {e["uprid"]: e for e in evs if e["e"] == "req" and e["uprid"]}
+        noticed = set()             # (node, connection) that had an unsolicited frame for one of its answered requests
+        answered = set()
+        for i, n in _notices(evs):
+            if n["res"] == 9:
+                st["expiry_notices_on_upstream_links"] += 1
+                q = byup.get(n["rid"])
+                if q is not None:
+                    st["notices_for_text_connections" if q["proto"] == "text" else "notices_for_binary_connections"] += 1
         for e in evs:
             t = e["e"]
+            if t == "up_reply" and e["rid"] in byup:
+                if e["rid"] in answered:
+                    noticed.add((byup[e["rid"]]["node"], byup[e["rid"]]["conn"]))
+                answered.add(e["rid"])
+            if t == "note" and e.get("what") == "wait_notice":
+                st["notice_waits"] += 1
+                st["notice_waits_satisfied"] += e["seen"] >= e["want"]
+            if t == "req" and e["ex"] and e["cmd"] in ("L", "S") and (e["exhi"] <= 3):
+                st["requests_with_short_expiry_milliseconds" if e["ef"] & 0x0400 else "requests_with_short_expiry_seconds"] += 1
+                st["value_commands_with_expiry"] += e["cmd"] == "S"
+            if t == "reply" and e["rid"] in reqs and e["res"] == 9 and reqs[e["rid"]]["proto"] == "bin":
+                q = reqs[e["rid"]]
+                if q["where"] == "L":
+                    st["notices_to_binary_clients_of_the_leader"] += 1
+                elif q["role"] == "follower":
+                    st["notices_relayed_to_binary_clients"] += 1
+            if t == "reply" and e["rid"] in reqs and e["res"] != 9:
+                q = reqs[e["rid"]]
+                if q["role"] == "follower" and q["uprid"] in upr and (q["node"], q["conn"]) in noticed and q["uprid"] in answered:
+                    st["text_requests_relayed_after_a_notice_on_their_connection" if q["proto"] == "text" else "binary_requests_relayed_after_a_notice_on_their_connection"] += 1
             if t == "req":
                 st["requests"] += 1
                 st["binary" if e["proto"] == "bin" else "text"] += 1
@@ -491,6 +730,9 @@ def run_part(out, tier, seed, wd):
                 st["leader_gone_windows"] += 1
             elif t == "role":
                 st["promotions"] += 1
+    if st["text_requests_relayed_after_a_notice_on_their_connection"] < 5 or st["notices_relayed_to_binary_clients"] < 3:
+        raise InfraError("forwarding engine exercised too little of the expiry histories (%d text requests relayed after a notice, %d notices relayed to binary clients)"
+                         % (st["text_requests_relayed_after_a_notice_on_their_connection"], st["notices_relayed_to_binary_clients"]))
     if st["relayed"] < 50 or st["snapshots_compared"] < 10:
         raise InfraError(f"forwarding engine exercised too little ({st['relayed']} relayed replies, {st['snapshots_compared']} follower snapshots)")
     sample_sc = next(sc for sc, _ in traces["F1"] if sc.get("src") == "tlc")
@@ -499,9 +741,13 @@ def run_part(out, tier, seed, wd):
                      "deviations_named": {"RollbackLatestOnly": "rollbackLatestCommand answers only the latest in-flight request of an upstream connection that broke",
                                           "FirstTextLocal": "first command of a text connection on a non-leader is run by the inner TextServerProtocol (refused locally, not forwarded)"},
                      "orphan_counterexample_as_coded": mcres.get("orphan_counterexample"),
+                     "unsolicited_frames": "LeaderExpire: the deciding engine pushes an EXPRIED frame with the id of the request whose command the hold keeps down that request's route; "
+                                           "exactly one leader frame is the answer of a request; without the reset of lockRequestId the notice is taken as the answer of the next "
+                                           "text request - refuted by TLC (ReplyOfThatVeryRequest): %s" % mcres.get("noreset_counterexample"),
                      "fastpath_guard": "follower answers locally only for concurrent-check flag AND Timeout 0 AND key full in its replica; the OR variant is refuted: %s" % mcres.get("fastpath_or_counterexample")},
-           "behaviours_generated": nraw, "behaviours_replayed": sum(1 for sc, _ in allseq.values() if sc.get("src") == "tlc"),
+           "behaviours_generated": nraw, "expiry_behaviours_generated": xres["raw"], "behaviours_replayed": sum(1 for sc, _ in allseq.values() if sc.get("src") == "tlc"),
            "seeded_histories": sum(1 for sc, _ in allseq.values() if sc.get("src") == "seeded"),
+           "seeded_expiry_histories": sum(1 for sc, _ in allseq.values() if sc.get("src") == "seeded-expiry"),
            "directed_histories": sorted(n for n, (sc, _) in allseq.items() if sc.get("src") == "directed"),
            "traces_validated_against_impl": len(allseq), "engine": st, "monitor": dict(mst, **judged), "violations": nviol,
            "observed_outside_C10": {k: {"count": len(v), "first": v[0]} for k, v in observed.items()},
